@@ -43,6 +43,8 @@ def match_input(entry, source, enabled, result):
     if set(m.get("forbids_traits", [])) & enabled_set(enabled):
         return False
     norm = " ".join(result.split())
+    if m.get("result_contains_any") and not any(" ".join(frag.split()) in norm for frag in m["result_contains_any"]):
+        return False
     return all(" ".join(frag.split()) in norm for frag in m.get("result_contains", []))
 
 
